@@ -8,6 +8,7 @@ package server
 // command documentation; semantic content comes from the maps.
 
 import (
+	"regexp"
 	"math"
 	"fmt"
 	"sort"
@@ -554,7 +555,7 @@ func mApply(s *mState, a []string) string {
 		}
 		v := a[4]
 		if !raw && !str {
-			if _, err := strconv.ParseFloat(v, 64); err == nil || v == "true" || v == "false" || v == "null" {
+			if mIsJSONNumber(v) || v == "true" || v == "false" || v == "null" {
 				raw = true
 			}
 		}
@@ -1163,3 +1164,8 @@ func (h *mHook) fenceKey() string {
 	}
 	return ""
 }
+
+var reJSONNumber = regexp.MustCompile(`^-?(0|[1-9][0-9]*)(\.[0-9]+)?([eE][+-]?[0-9]+)?$`)
+
+// mIsJSONNumber: the number grammar of JSON (what JSET stores unquoted).
+func mIsJSONNumber(v string) bool { return reJSONNumber.MatchString(v) }
